@@ -470,6 +470,25 @@ def check_ndarray(ctx, r, lines, expect, meta):
             expect.append('ok ' + (','.join(str(b) for b in doc['data']) or '-')); meta.append(('serialize_ndarray bytes', src))
             lines.append(f"frombytes {sz} {sg} {len(flat)} " + (','.join(str(b) for b in doc['data']) or '-'))
             expect.append('ok ' + (','.join(str(int(x)) for x in b.ravel().tolist()) or '-')); meta.append(('deserialize_ndarray bytes', src))
+        if not dt.startswith('float') and dt != 'bool':
+            # the whole document (keys, branch selection of deserialize_ndarray) against `DimodModel/BytesDoc.lean`; also with a
+            # truncated buffer, which `np.frombuffer` / `reshape` must refuse
+            sz = a.dtype.itemsize; sg = int(dt.startswith('int'))
+            flat = [int(x) for x in a.ravel().tolist()]
+            for drop in ((0, sz) if ub and cnt else (0,)):
+                doc3 = dict(doc)
+                if drop:
+                    doc3['data'] = doc['data'][:len(doc['data']) - drop]
+                try:
+                    b3 = deserialize_ndarray(doc3 if ub else json.loads(json.dumps(doc3)))
+                    back = 'some ' + (','.join(map(str, b3.shape)) or '-') + ' ' + (','.join(str(int(x)) for x in b3.ravel().tolist()) or '-')
+                except Exception:  # noqa
+                    back = 'none'
+                payload = ('B' + (','.join(str(x) for x in doc['data']) or '-')) if ub else ('L' + pv(doc['data']))
+                lines.append(f"bytesdoc {sz} {sg} " + (','.join(map(str, a.shape)) or '-') + ' ' + (','.join(map(str, flat)) or '-') + f' {int(ub)} {drop}')
+                expect.append(f"ok type={doc['type']} size={np.dtype(doc['data_type']).itemsize} signed={int(np.dtype(doc['data_type']).kind == 'i')} "
+                              f"shape={(','.join(map(str, doc['shape'])) or '-')} use_bytes={int(doc['use_bytes'])} data={payload} back={back}")
+                meta.append(('serialize_ndarray document', src)); ctx.tick('ndarray document ' + ('bytes' if ub else 'json') + (' truncated' if drop else ''))
         if not ub:
             cls = 'b' if dt == 'bool' else 'f' if dt.startswith('float') else 'i'
             lines.append(f'serarr {cls} ' + (','.join(map(str, a.shape)) or '-') + ' ' + ratl(a.ravel().tolist()))
@@ -562,12 +581,117 @@ def check_coo(ctx, r, lines, expect, meta):
     meta.append(('coo.dumps', src))
 
 
+# ------------------------------------------------------------------ COO at text level (DimodModel/CooText.lean)
+COO_BIASES = [0.0, 0.125, -1.5, 2.0, 0.75, -3.25, 1e-7, -1e-7, 0.1, -0.3, 1 / 128, 3 / 128, -1 / 128, 5 / 2 ** 20, 123456.7890625, 1e15,
+              0.9999995, 0.9999996, 2.5e-6, 1.5e-6, 0.5 ** 21, 33.0000005, 7.0, -0.000001, 1e-6, 4503599627370497.0]
+COO_NUMS = ['1', '-1', '+1', '1.5', '.5', '5.', '-.25', '+0.125', '1e5', '1E-2', '', '+', '-', '.', '0x10', '1_000', '00012.500', 'inf', 'nan',
+            '-0.000000', '1.2.3', '--1', '2.000000', '0.250000']
+COO_SEPS = [' ', '  ', '\t', ' \t ', '\x0c', '\x1c', '\xa0', '\x85', '\r', '\x0b']
+COO_HDRS = ['# vartype=SPIN', '#vartype=BINARY', '  # comment vartype: SPIN trailing', '\t#vartype=  BINARY', '# vartype=INTEGER', '# vartype=FOO',
+            '# vartype SPIN', '#vartype=', '# vartypevartype=SPIN', '# Vartype=SPIN', 'x # vartype=SPIN', '\x0c# xx vartype:\tBINARY=3',
+            '# vartype=DISCRETE', '# vartype=spin', '#  vartype = SPIN', '# vartype=REAL', '\x0b# vartype=SPIN', '# vartype=-_.', '# vartype=SPIN!']
+
+
+def frs(x):
+    f = F(x)
+    return str(f.numerator) if f.denominator == 1 else f'{f.numerator}/{f.denominator}'
+
+
+def coo_view(text, arg):
+    """what `coo.loads` builds: ('err', exception class) or (vartype, variables in order, linear, quadratic) as exact doubles"""
+    try:
+        with warnings.catch_warnings():
+            warnings.simplefilter('ignore')
+            b = coo.loads(text, vartype=arg)
+    except Exception as e:  # noqa: every exception class is a refusal of the text
+        return 'err'
+    return (b.vartype.name, list(b.variables), {v: float(x) for v, x in b.linear.items()}, {frozenset(k): float(x) for k, x in b.quadratic.items()})
+
+
+def coo_model_view(out):
+    if not out.startswith('ok '):
+        return out
+    _, vt, vs, ls, qs = out.split(' ')
+    vs = [] if vs == '-' else [int(x) for x in vs.split(',')]
+    ls = [] if ls == '-' else [float(F(x)) for x in ls.split(',')]      # the binary64 nearest to the model's decimal value
+    q = {}
+    if qs != '-':
+        for t in qs.split(';'):
+            u, v, b = t.split(':')
+            q[frozenset((int(u), int(v)))] = float(F(b))
+    return (vt, vs, dict(zip(vs, ls)), q)
+
+
+def check_coo_text(ctx, r, tlines, texpect, tmeta):
+    """writer: the model's text vs `coo.dumps` character for character; reader: the model's loader vs `coo.loads` on the written text
+    and on hand-mutated lines; property: the loaded biases are the written ones to their printed precision (computed here from
+    the exact value of the double by integer arithmetic, round-half-even)"""
+    vt = r.choice(['SPIN', 'BINARY'])
+    n = r.randint(0, 5)
+    labels = r.sample(r.choice([[0, 1, 2, 3, 5, 8, 13], [3, 4, 7, 10, 11, 20], [1, 2, 4, 100, 101, 7], [5, 6, 7, 8, 9, 1000000]]), n)
+    lin = {v: r.choice(COO_BIASES) for v in labels if r.random() < .8}
+    quad = {}
+    for i in range(n):
+        for j in range(i + 1, n):
+            if r.random() < .5:
+                quad[(labels[i], labels[j]) if r.random() < .5 else (labels[j], labels[i])] = r.choice(COO_BIASES)
+    src = f'bqm = dimod.BinaryQuadraticModel({lin!r}, {quad!r}, 0.0, {vt!r})'
+    bqm = dimod.BinaryQuadraticModel(lin, quad, 0.0, vt)
+    hdr = r.random() < .5
+    arg = None if (hdr and r.random() < .6) else vt
+    text = coo.dumps(bqm, vartype_header=hdr)
+    ctx.tick('coo text: written'); ctx.case(('coo text', src, hdr, arg), nontrivial=bool(text))
+    if any(abs(b) >= 1e15 for b in list(lin.values()) + list(quad.values())):
+        ctx.tick('coo text: bias >= 1e15')
+    labs = list(bqm.variables)
+    tlines.append(f"coodump {int(hdr)} {vt} {','.join(map(str, labs)) or '-'} {','.join(frs(bqm.linear[v]) for v in labs) or '-'} "
+                  + (';'.join(f'{u}:{v}:{frs(b)}' for (u, v), b in bqm.quadratic.items()) or '-'))
+    texpect.append('ok ' + text.encode().hex() + '.'); tmeta.append(('coo.dumps text', src, None))
+    # property on the real code: every bias comes back as the written one rounded to 6 decimals
+    def r6(x):
+        fx = F(x) * 10 ** 6
+        fl = fx.numerator // fx.denominator
+        rem = fx - fl
+        return fl + (1 if rem > F(1, 2) or (rem == F(1, 2) and fl % 2) else 0)
+    want_l = {v: float(F(r6(b), 10 ** 6)) for v, b in bqm.linear.items() if b}
+    want_q = {frozenset(k): float(F(r6(b), 10 ** 6)) for k, b in bqm.quadratic.items()}
+    got = coo_view(text, arg)
+    ok = got != 'err' and got[0] == vt and {v: b for v, b in got[2].items() if v in want_l or b} == want_l and got[3] == want_q \
+        and set(got[1]) == set(want_l) | {v for k in want_q for v in k}
+    if not ok:
+        ctx.fail('property', 'coo.dumps/loads', 'text round trip', f'{bqm!r} through {text!r} came back as {got!r}',
+                 repro=PRE + src + f"\nnew = coo.loads(coo.dumps(bqm, vartype_header={hdr}), vartype={arg!r})\n"
+                 "R = lambda x: round(float(x), 6)\n"
+                 "assert new.vartype is bqm.vartype and {v: R(b) for v, b in new.linear.items() if R(b)} == {v: R(b) for v, b in bqm.linear.items() if R(b)} "
+                 "and {frozenset(k): R(b) for k, b in new.quadratic.items()} == {frozenset(k): R(b) for k, b in bqm.quadratic.items()}, new",
+                 detail=dict(source=src, text=text))
+    tlines.append(f"cooload {arg or '-'} {text.encode().hex()}."); texpect.append(got); tmeta.append(('coo.loads of written text', src, text))
+    # mutated texts: acceptance / refusal and the loaded values must correspond
+    L = []
+    for _ in range(r.randint(0, 4)):
+        if r.random() < .25:
+            L.append(r.choice(COO_HDRS)); ctx.tick('coo text: header variant')
+        else:
+            u = r.choice(['0', '1', '2', '01', '10', '007', '7'])
+            v = r.choice(['0', '1', '2', '01', '10', '007', '7'])
+            L.append(r.choice(['', ' ', '\t', '']) + u + r.choice(COO_SEPS + ['', ',']) + v + r.choice(COO_SEPS + [''])
+                     + r.choice(COO_NUMS) + r.choice(['', ' ', '\r', ' x', '\t\t', ' 3']))
+    if r.random() < .3:
+        L = text.split('\n') + L if r.random() < .5 else L + text.split('\n')
+    mtext = '\n'.join(L)
+    marg = r.choice([None, None, 'SPIN', 'BINARY'])
+    got = coo_view(mtext, marg)
+    ctx.tick('coo text: mutated ' + ('refused' if got == 'err' else 'accepted, empty' if not got[1] else 'accepted'))
+    ctx.case(('coo mutated', mtext, marg), nontrivial=bool(L))
+    tlines.append(f"cooload {marg or '-'} {mtext.encode().hex()}."); texpect.append(got); tmeta.append(('coo.loads of mutated text', repr(mtext), mtext))
+
+
 def run(ctx):
     r = ctx.rng
     ctx.rule = ('random BQMs (3 classes, 8 label pools incl. nested tuples, floats and unsortable mixes, isolated variables, zero biases) x 8 routes; '
                 'random sample sets (5 vartypes, 7 sample dtypes, widths up to 65, 0 rows / 0 columns, int/float/bool/2-d data vectors, nested info '
                 'with arrays) x 8 routes; bit packing for widths around multiples of 32; ndarray (de)serialisation for 8 dtypes and 8 shapes; '
-                'labels; COO.  A case = one object through one route; non-trivial = the object is not empty')
+                'labels; COO (triples, and at text level: written text character for character, loader on written and hand-mutated lines).  A case = one object through one route; non-trivial = the object is not empty')
     lines, expect, meta = [], [], []
     for _ in range(ctx.scale(600, 8000)):
         check_bqm(ctx, r, lines, expect, meta)
@@ -583,12 +707,32 @@ def run(ctx):
         check_info(ctx, r, lines, expect, meta)
     for _ in range(ctx.scale(800, 8000)):
         check_coo(ctx, r, lines, expect, meta)
+    tlines, texpect, tmeta = [], [], []
+    for _ in range(ctx.scale(800, 8000)):
+        check_coo_text(ctx, r, tlines, texpect, tmeta)
     try:
         got = run_driver('packdriver', lines)
     except RuntimeError as e:
         ctx.notes.append(f'model driver unavailable: {e}')
         return
     ctx.corr_lines += len(lines)
+    try:
+        tgot = run_driver('packdriver', tlines)
+    except RuntimeError as e:
+        ctx.notes.append(f'model driver unavailable: {e}')
+        return
+    ctx.corr_lines += len(tlines)
+    for i, ln in enumerate(tlines):
+        g = tgot[i] if i < len(tgot) else 'MISSING'
+        same = (g == texpect[i]) if ln.startswith('coodump') else (coo_model_view(g) == texpect[i])
+        if not same:
+            if ln.startswith('coodump') and g.startswith('ok '):
+                g = repr(bytes.fromhex(g[3:-1]).decode()); e = repr(bytes.fromhex(texpect[i][3:-1]).decode())
+            else:
+                g = repr(coo_model_view(g)); e = repr(texpect[i])
+            ctx.fail('correspondence', tmeta[i][0] + ' vs CooText model', tmeta[i][0], f'`{ln[:200]}`: impl {e[:300]} model {g[:300]}',
+                     detail=dict(source=tmeta[i][1]))
+            break
     prop_sites = {f['site'] for f in ctx.failures if f['kind'] == 'property'}
     for i, ln in enumerate(lines):
         g = got[i] if i < len(got) else 'MISSING'
